@@ -226,13 +226,10 @@ def _check_main(ctx, res) -> None:
         star_calls = []
         for c in calls_in(fv.node, local=False):
             if is_self_attr(c.func, "can_select"):
-                # inside the star branch?
-                n = c
-                in_star = False
-                while id(n) in parents:
-                    n = parents[id(n)]
-                    if isinstance(n, ast.If) and "is_star_import" in ast.unparse(n.test) and any(x is c for s_ in n.body for x in ast.walk(s_)):
-                        in_star = True
+                # inside the star branch?  (decided on the CFG: the call is reached only over the TRUE edge of the
+                # is_star_import() test, however the if/else is written)
+                in_star = any("is_star_import" in ast.unparse(t) and pol
+                              for nd in cfg.node_containing(c) for t, pol in cfg.guards(nd.id))
                 if in_star:
                     star_calls.append(c)
         if not star_calls:
@@ -299,6 +296,18 @@ def _from_import_identity_rule(ctx, res, rule: str = "R07.7") -> None:
                     for nd in cfg.node_containing(x):
                         if any(is_level_cmp(t) and pol for t, pol in cfg.guards(nd.id)):
                             ok = True
+                if not ok:
+                    # nested ifs / early returns: every STATEMENT that runs only when the module names compared equal
+                    # also runs only when the levels compared equal
+                    eq = isinstance(x.ops[0], ast.Eq)
+                    under = []
+                    for nd in cfg.nodes:
+                        if nd.kind != "stmt" or nd.ast is None:
+                            continue
+                        gs = cfg.guards(nd.id)
+                        if any(t is x and pol == eq for t, pol in gs):
+                            under.append(any(is_level_cmp(t) and pol == eq for t, pol in gs))
+                    ok = bool(under) and all(under)
                 res.add(rule, f"{short}|same-module#{ka}", ok, f"{f.unit.rel}:{x.lineno}",
                         "module_name equality is paired with level equality of the same operands" if ok else
                         f"{short} treats two from-imports as the same module when their module_name is equal, without comparing .level: "
